@@ -607,18 +607,22 @@ def solve_cli(cmd, text, timeout_s):
 
 def solve_query(q_tuple):
     """worker: try the stages in order; first unsat wins"""
-    idx, stages, timeout_ms, thorough, seed = q_tuple
+    idx, stages, timeout_ms, thorough, seed = q_tuple[:5]
+    deadline = q_tuple[5] if len(q_tuple) > 5 else None
     best = ("unknown", "", 0.0, {}, "z3-5.1", "")
     total = 0.0
     for nm, text in stages:
+        if deadline is not None and time.time() > deadline:
+            # wall-clock budget of the whole solve phase exhausted (only ever reached when many obligations fail at once): undecided, never a verdict
+            return (idx, best[0], best[1] or "deadline", total, best[3], best[4], best[5] or "solve-phase deadline reached")
         lin = nm.endswith("/lin")
         try:
             if lin:
                 # two arithmetic back ends of z3, products opaque; only `unsat` is used
-                r, dt, model = solve_z3(text, min(timeout_ms, 8000), seed, linear=True, legacy=True)
+                r, dt, model = solve_z3(text, min(timeout_ms, 20000), seed, linear=True, legacy=True)
                 if r != "unsat":
                     total += dt
-                    r, dt, model = solve_z3(text, min(timeout_ms, 8000), seed, linear=True)
+                    r, dt, model = solve_z3(text, min(timeout_ms, 20000), seed, linear=True)
             else:
                 r, dt, model = solve_z3(text, timeout_ms, seed)
                 if r == "unknown":
@@ -679,11 +683,12 @@ def _pool(jobs, sample_texts=()):
     return _POOL[jobs]
 
 
-def run_queries(queries, jobs=None, timeout_ms=10000, thorough=False, seed=0):
+def run_queries(queries, jobs=None, timeout_ms=10000, thorough=False, seed=0, budget_s=None):
     jobs = jobs or min(16, os.cpu_count() or 4)
+    deadline = time.time() + budget_s if budget_s else None
     # vacuity queries (canaries, pre.sat) only have to be *not refuted*: one quantifier-free stage, short budget
     tasks = [(i, [st_ for st_ in q.stages if st_[0] == "qf+inst"][:1] or q.stages[-1:], 5000, False, seed) if getattr(q, "kind", "ob") != "ob"
-             else (i, q.stages, timeout_ms, thorough, seed) for i, q in enumerate(queries)]
+             else (i, q.stages, timeout_ms, thorough, seed, deadline) for i, q in enumerate(queries)]
     if not tasks:
         return queries
     if jobs == 1 or len(tasks) < 3:
